@@ -1,5 +1,5 @@
 (* Property C01 - create counts every complete site once at its per-population ALT index. *)
-From Sfs Require Import Index ArrayM Scalar Spectrum Project Create SampleParse Npy Text Container IndexP ArrayP BinomP ProjectP CreateP CreateSpecP SampleParseP SampleParseGenP ContainerP.
+From Sfs Require Import Index ArrayM Scalar Spectrum Project Create SampleParse Npy Text Container IndexP ArrayP BinomP ProjectP CreateP CreateSpecP SampleParseP SampleParseGenP ContainerP SampleFieldP.
 From Coq Require Import Permutation.
 Close Scope string_scope.
 
@@ -37,4 +37,23 @@ Theorem C01_mass_is_counted_records : forall cfg strict items st,
   length (scs st) = elements (r_shape cfg).
 Proof. exact (@run_conservation). Qed.
 Print Assumptions C01_mass_is_counted_records.
+
+(* extra FORMAT fields: a sample's genotype is its GT value; the other values of the sample (present, missing, dropped) never influence it *)
+Open Scope N_scope.
+Theorem C01_genotype_is_the_gt_value_only : forall keys gt others others',
+  keys_ok keys -> value_ok gt -> Forall value_ok others -> Forall value_ok others' ->
+  (length others < length keys)%nat -> (length others' < length keys)%nat ->
+  vcf_sample_gt keys (sample_text (gt :: others)) = vcf_sample_gt keys (sample_text (gt :: others')).
+Proof. exact (@sample_gt_ignores_other_values). Qed.
+Print Assumptions C01_genotype_is_the_gt_value_only.
+Close Scope N_scope.
+
+(* ... and it is classified by its alleles *)
+Open Scope N_scope.
+Theorem C01_genotype_of_a_rendered_sample : forall keys (g : agt) others,
+  keys_ok keys -> g <> [] -> int8_ok g = true -> Forall value_ok others -> (length others < length keys)%nat ->
+  classify_field (vcf_sample_gt keys (sample_text (render_gt g :: others))) = Some (classify (Some (map fst g))).
+Proof. exact (@sample_classification). Qed.
+Print Assumptions C01_genotype_of_a_rendered_sample.
+Close Scope N_scope.
 
